@@ -308,6 +308,12 @@ def check(prop, tier):
         cvars, runs = plan["cross"]
         cross_stats = dict(variants=cvars, runs=runs, compared_records=0, hash_mismatch_runs=0)
         seeds = [base + i for i in range(runs)]
+        p = subprocess.run([binpath(cvars[0]), "gated", "--seed", str(base), "--focus", prop, "--decimal-only", "--print-trace"],
+                           capture_output=True, text=True)
+        tl = [l for l in p.stdout.splitlines() if l.startswith("T")]
+        j0 = last_json(p.stdout) or {}
+        samples.append(dict(engine="G, same decimal-only history run in every build", variants=cvars, seed=base, first_events=tl[:12], events=len(tl),
+                            transcript_hash_parse_and_integer_write=j0.get("h_parse_and_int"), transcript_hash_float_write=j0.get("h_float_write")))
         noncompact = [v for v in cvars if "compact" not in v]
         def one(s):
             return s, {v: run_gated(v, s, prop, ["--decimal-only"]) for v in cvars}
